@@ -242,6 +242,8 @@ def fam_pbkdf2():
             seen.add((p[0], p[2]))
             first.append(p)
     plan = first + [p for p in plan if p not in first]
+    if not QUICK:
+        plan = plan * 3                                    # other passwords, salts and counts each time round
     plan = [("SHA1", r.choice([1, 20, 21, 41]), "default")] * 2 + plan
     spent = 0
     for name, dk, api in plan:
